@@ -65,7 +65,8 @@ def run(ctx):
                 "auth_strategy=private-key source}: {default, non-default port} x known_hosts {same key, different key same type, only "
                 "other key types, hashed entry, entry under the other port's name, none} x {Reject, AutoAdd, Warning, "
                 "custom accept, custom refuse}; (b2) system store x user store (load_system_host_keys / load_host_keys: none, same key, "
-                "other types, different key of the same type) x policy; (b6) stores loaded from a multi-name line (host,ip / [host]:port,[ip]:port) and edited through the "
+                "other types, different key of the same type) x policy; (b7) connect(gss_kex=True) over a stub GSS context against a server that offers no gss-* kex x "
+                "known_hosts variants x policies; (b6) stores loaded from a multi-name line (host,ip / [host]:port,[ip]:port) and edited through the "
                 "API before connect (HostKeys.add, __setitem__, SubDict set, del) x server presents the old / the new key; "
                 "(b5) known RSA key vs presented near-collisions with a usable private half (modulus congruent "
                 "modulo sys.hash_info.modulus = equal Python hash; same modulus with another exponent; unrelated; identical) - "
@@ -216,6 +217,42 @@ def run(ctx):
                      "outcome %s, server saw %r" % (obs["outcome"], obs["server_saw"]))
         if consulted and obs["policy_called"]:
             ctx.fail("known-host-handed-to-missing-host-key-policy", case, repr(obs["policy_called"]))
+        if G.PASSWORD.encode() in obs["raw"]:
+            ctx.fail("secret-in-plaintext", case, "password in the client's raw output")
+
+    # ---------------- (b7) GSS-API key exchange requested (gss_kex=True) but not negotiated: the host key is still checked
+    okg, guard_src = G.hostkey_block_guard_fact()
+    ctx.extra["host_key_block_guard"] = guard_src
+    if not okg:
+        ctx.broken.append({"kind": "generator", "what": "SSHClient.connect: the host-key block is not guarded by gss_kex_used",
+                           "detail": "guard: %s (must be `not <transport>.gss_kex_used`: a gss-* kex negotiated)" % guard_src})
+    gcases = [(vn, pol) for vn in ("same-key", "different-key-same-type", "only-other-types", "none")
+              for pol in ("reject", "autoadd", "custom-no")]
+    if not ctx.thorough:
+        gcases = [c for c in gcases if c[1] == "reject"] + rng.sample([c for c in gcases if c[1] != "reject"], 3)
+    kmap = {"same-key": [server_key], "different-key-same-type": [keys["ec2"]], "only-other-types": [keys["rsa"], keys["ed"]],
+            "none": []}
+    replies = ctx.driver("C17", ["sconn3 0 none %s %s %d" % ("none" if not kmap[vn] else ",".join(key_tok(k) for k in kmap[vn]),
+                                                           key_tok(server_key), 1 if pol == "autoadd" else 0)
+                                 for vn, pol in gcases])
+    for i, (vn, pol) in enumerate(gcases):
+        ep = rng.choice(["password", "pkey"])
+        obs = G.run_ssh_client(host, 22, [(host, False, k) for k in kmap[vn]], pol, server_key, ep, gss_kex=True)
+        should_send = (server_key in kmap[vn]) if kmap[vn] else pol == "autoadd"
+        ctx.case(("gss-kex-requested", vn, pol, ep), True)
+        ctx.dist("gss_kex-requested:" + vn)
+        case = {"connect_option": "gss_kex=True (server offers no gss-* kex)", "known_hosts": vn, "policy": pol,
+                "entry_point": ep, "gss_kex_used": obs.get("gss_kex_used")}
+        if obs.get("gss_kex_used"):
+            ctx.disagree("harness: a gss-* kex was negotiated with a server that offers none", case, False, True)
+        if replies is not None and replies[i] != obs["outcome"]:
+            ctx.disagree("SSHClient.connect decision (gss_kex requested)", case, replies[i], obs["outcome"])
+        if not should_send and (obs["server_saw"] or obs["outcome"] == "authenticate"):
+            ctx.fail("credentials-sent-to-unverified-server-with-gss_kex-requested", case,
+                     "no gss-* kex was negotiated, the host key had to be checked; outcome %s, server saw %r" %
+                     (obs["outcome"], obs["server_saw"]))
+        if should_send and not obs["server_saw_credential"]:
+            ctx.disagree("harness: accepted server did not receive the credential", case, "credential", obs["outcome"])
         if G.PASSWORD.encode() in obs["raw"]:
             ctx.fail("secret-in-plaintext", case, "password in the client's raw output")
 
@@ -409,7 +446,8 @@ META = {
               "Transport.connect over known_hosts variants x policies, on every check."),
     "note": ("Trusted: Lean kernel + 3 standard axioms; the gated harness. The model abstracts the key exchange to two "
              "events (reply with verified/forged signature, NEWKEYS); re-keying, the known_hosts file format and lookup "
-             "(C41), key-type preference reordering and GSS-API key exchange (host key check skipped by design) are not "
+             "(C41), key-type preference reordering and a NEGOTIATED GSS-API key exchange (host key check skipped by design; only the requested-but-not-negotiated "
+             "case is driven, and a source fact pins the skip to gss_kex_used) are not "
              "modelled. Key equality in the model is equality of (algorithm name, public blob); the harness decides it by "
              "asbytes() and a source fact (AST) pins PKey.__eq__ to the _fields comparison. Fingerprint-prefix collisions are "
              "not generated. The missing-host-key policy is a Boolean in the model: it accepts only by returning normally; the "
